@@ -1,6 +1,7 @@
 import Woodpile.Driver.Util
 import Woodpile.Driver.Iovec
 import Woodpile.Model.EncWorld
+import Woodpile.Model.EncWorldPre
 
 /-
 Family `codecw`: the HCOBS Encoder / Decoder driving the *structural* iovec
@@ -260,6 +261,67 @@ def stepRest2 (s : St) (ws : List String) : St × List String :=
     | _ => false
   if isDrain && (s.iv.w.iov 0).isNone then (s, ["bad-op"]) else stepRest s ws
 -- (track apileft, helper decw) END
+/-! ### >>> track apileft-prefill: `new_from_iovec` on a richer pre-filled iovec
+
+`enc_from2 <script> <limits…>` / `dec_from2 <script> <limits…>`: the caller builds the iovec with a short
+script of real `OwningIovec` calls (`EncWorld.PreOp`, run by `EncWorld.preRun` — the functions
+`Props/C01P`, `C09P` are about), then hands it to `new_from_iovec`.  Script = comma list of
+`p<hex>` (`push`), `b<hex>` (`push_borrowed`), `c<hex>` (`push_copy`), `r<n>` (`register_patch` of n zero
+bytes; caller token number = order of registration), `f<k>:<hex>` (`backfill_or_panic` of caller token k),
+`d<k>` (`consume(k)`), `a<k>` (`advance_slices(k)`); `-` = empty script.
+`post_fill <k> <hex>`: once the codec has given the iovec back (`finish` / `take_iovec`), the caller fills
+placeholder k that was still pending at the hand-over (the codec never exposes the write side of its
+iovec, so this is the earliest moment safe code can do it).  The caller's tokens live in `World.brefs`. -/
+
+def parsePreOp (t : String) : Option PreOp :=
+  match t.toList with
+  | [] => none
+  | c :: rest =>
+    let arg := String.ofList rest
+    if c = 'p' then (parseHex arg).map .push
+    else if c = 'b' then (parseHex arg).map .pushBorrowed
+    else if c = 'c' then (parseHex arg).map .pushCopy
+    else if c = 'r' then arg.toNat?.map .register
+    else if c = 'd' then arg.toNat?.map .consume
+    else if c = 'a' then arg.toNat?.map .advance
+    else if c = 'f' then
+      match arg.splitOn ":" with
+      | [k, hex] => match k.toNat?, parseHex hex with
+        | some k, some bs => some (.fill k bs)
+        | _, _ => none
+      | _ => none
+    else none
+
+def parsePreScript (s : String) : Option (List PreOp) :=
+  if s = "-" then some [] else (s.splitOn ",").mapM parsePreOp
+
+def stepFrom2 (s : St) (isEnc : Bool) (script : String) (ps : List String) : St × List String :=
+  match parsePreScript script, parseParams ps with
+  | some ops, some p =>
+    let (w0, _) := s.iv.w.addIov Iov.empty
+    match preRun 0 ⟨w0, [], []⟩ ops with
+    | none => panic s
+    | some st =>
+      let w2 : World := { st.w with brefs := st.toks }
+      if isEnc then
+        match encInit p w2 0 with
+        | some (w3, e) => fin { s with prodApi := ps = ["prod"] } w3 (.enc p e)
+        | none => panic s
+      else fin { s with prodApi := ps = ["prod"] } w2 (.dec p .initial)
+  | _, _ => (s, ["bad-op"])
+
+def stepPostFill (s : St) (k hex : String) : St × List String :=
+  match s.codec, k.toNat?, parseHex hex, s.iv.w.iov 0 with
+  | .none, some k, some bs, some _ =>
+    match s.iv.w.brefs[k]? with
+    | none => (s, ["bad-op"])
+    | some b =>
+      match s.iv.w.backfill 0 b bs with
+      | some w' => fin s w' .none
+      | none => panic s
+  | _, _, _, _ => (s, ["bad-op"])
+
+/-! ### <<< track apileft-prefill -/
 
 def step (s : St) (ws : List String) : St × List String :=
   if s.iv.dead then (s, []) else
@@ -286,6 +348,16 @@ def step (s : St) (ws : List String) : St × List String :=
   | ["dec_default"] =>
     let (w0, _) := w.addIov Iov.empty
     fin { s with prodApi := true } w0 (.dec ⟨Woodpile.Gen.maxInit, Woodpile.Gen.maxSub, Woodpile.Gen.radix⟩ .initial)
+  -- >>> track apileft-prefill
+  | "enc_from2" :: script :: ps => stepFrom2 s true script ps
+  | "dec_from2" :: script :: ps => stepFrom2 s false script ps
+  | ["post_fill", k, hex] => stepPostFill s k hex
+  -- a drain when there is no iovec (before any constructor, or after a failed `finish` consumed the decoder
+  -- and its iovec): the harness has nothing to call and answers `bad-op`
+  | "drain_all" :: _ => if (w.iov 0).isNone then (s, ["bad-op"]) else stepRest s ws
+  | "drain_slices" :: _ => if (w.iov 0).isNone then (s, ["bad-op"]) else stepRest s ws
+  | "drain_bytes" :: _ => if (w.iov 0).isNone then (s, ["bad-op"]) else stepRest s ws
+  -- <<< track apileft-prefill
   -- `new_from_iovec(iovec)` on an iovec that already holds `prefill` (handed over with `push`)
   | op :: prefill :: ps =>
     if !(op = "enc_from" || op = "dec_from") then stepRest2 s ws else
